@@ -442,3 +442,59 @@ func H_abnormal() {
 	symx.AssertKnown(ok, "abnormal exit "+string(rune('0'+k))+": the matching catch handles the throwable and finally runs exactly once", known, "C05-include-throw-bypasses-try")
 	symx.Reach("end")
 }
+
+// H_try_repeated: ONE try statement executed twice (a function called twice / a loop body) with
+// two throwables: which clause handles the second throwable depends on that throwable only, not
+// on what the statement handled before. Oracle: the trace of the sequence is the concatenation of
+// the traces of each execution alone (three runs of the real evaluator in the same path).
+func H_try_repeated() {
+	k0, k1 := symx.Choose("k0", 6), symx.Choose("k1", 6)
+	c1, c2 := symx.Choose("clause1", 5), symx.Choose("clause2", 5)
+	shape := symx.Choose("shape", 2)
+	names := []string{"E1", "E2", "Exception", "Error", "Throwable"}
+	decl := classes + `function thrower($k) {
+  if ($k == 1) { throw new Exception("x"); }
+  if ($k == 2) { throw new E1("x"); }
+  if ($k == 3) { throw new E2("x"); }
+  if ($k == 4) { $z = 1 % 0; }
+  if ($k == 5) { nofn(); }
+  if ($k == 6) { $q = null; $q->m(); }
+  return 0;
+}
+`
+	stmt := "try { try { thrower($k); mark(10); } catch (" + names[c1] + " $e) { mark(1); } catch (" + names[c2] + " $e) { mark(2); } finally { mark(7); } } catch (Throwable $e) { mark(3); }"
+	digit := func(k int) string { return string(rune('0' + k)) }
+	prog := func(ks ...int) string {
+		if shape == 0 {
+			s := decl + "function attempt($k) { " + stmt + " return 0; }\n"
+			for _, k := range ks {
+				s += "attempt(" + digit(k) + "); mark(50);\n"
+			}
+			return s
+		}
+		list := ""
+		for i, k := range ks {
+			if i > 0 {
+				list += ", "
+			}
+			list += digit(k)
+		}
+		return decl + "foreach ([" + list + "] as $k) { " + stmt + " mark(50); }\n"
+	}
+	t0, ok0 := runTrace(prog(k0))
+	t1, ok1 := runTrace(prog(k1))
+	both, ok := runTrace(prog(k0, k1))
+	symx.Assert(ok0 && ok1 && ok, "try-repeated: runs to completion")
+	if !(ok0 && ok1 && ok) {
+		return
+	}
+	want := append(append([]int{}, t0...), t1...)
+	symx.Assert(len(both) == len(want), "try-repeated: the second execution of the statement behaves as it does alone (trace length)")
+	if len(both) != len(want) {
+		return
+	}
+	for i := range want {
+		symx.Assert(both[i] == want[i], "try-repeated: the second execution of the statement behaves as it does alone")
+	}
+	symx.Reach("end")
+}
